@@ -211,7 +211,7 @@ def steady_cases(seed, tier):
     # other orders in which the two halves of a transaction finish: the response completes while the request body is still
     # being sent (early 4xx/2xx answers), strict alternation, and request chunks that end inside the next request's first line
     ok = b'HTTP/1.1 200 OK\r\nContent-Length: 2\r\n\r\nok'
-    for ci, shape in enumerate(['early_response', 'alternating', 'split_next_line'], start=len(shapes)):
+    for ci, shape in enumerate(['early_response', 'alternating', 'split_next_line', 'interim_100_with_headers', 'trailers_cookies_auth'], start=len(shapes)):
         ops = []
         if shape == 'early_response':
             for i in range(N):
@@ -219,6 +219,20 @@ def steady_cases(seed, tier):
                 ops.append((REQ, b'POST /u%d HTTP/1.1\r\nHost: h\r\nContent-Length: %d\r\n\r\n' % (i, len(body)) + body[:7]))
                 ops.append((RES, (b'HTTP/1.1 413 Payload Too Large\r\nContent-Length: 0\r\n\r\n' if i % 3 else ok)))
                 ops.append((REQ, body[7:]))
+        elif shape == 'interim_100_with_headers':
+            # Expect: 100-continue exchanges whose interim response carries header fields of its own (IIS, some proxies)
+            for i in range(N):
+                ops.append((REQ, b'POST /e%d HTTP/1.1\r\nHost: h\r\nExpect: 100-continue\r\nContent-Length: 4\r\n\r\n' % i))
+                ops.append((RES, b'HTTP/1.1 100 Continue\r\nServer: interim/1.0\r\nDate: Thu, 01 Jan 1970 00:00:%02d GMT\r\nX-Trace: %d\r\n\r\n' % (i % 60, i)))
+                ops.append((REQ, b'body'))
+                ops.append((RES, ok))
+        elif shape == 'trailers_cookies_auth':
+            # every per-transaction object the parser can allocate: cookies, credentials, query and body parameters, folded and repeated
+            # headers, chunked bodies with trailers on both sides
+            for i in range(N):
+                ops.append((REQ, b'POST /t%d?a=%d&b=c HTTP/1.1\r\nHost: h:80\r\nCookie: s=%d; t=u\r\nAuthorization: Basic dXNlcjpwYXNz\r\nX-F: a\r\n b\r\nX-R: 1\r\nX-R: 2\r\n'
+                                 b'Content-Type: application/x-www-form-urlencoded\r\nTransfer-Encoding: chunked\r\n\r\n7\r\nx=1&y=2\r\n0\r\nX-T: %d\r\n\r\n' % (i, i, i, i)))
+                ops.append((RES, b'HTTP/1.1 200 OK\r\nSet-Cookie: s=%d\r\nX-F: a\r\n b\r\nTransfer-Encoding: chunked\r\n\r\n2\r\nok\r\n0\r\nX-T: %d\r\n\r\n' % (i, i)))
         elif shape == 'alternating':
             for i in range(N):
                 ops.append((REQ, b'GET /a%d HTTP/1.1\r\nHost: h\r\n\r\n' % i))
